@@ -190,6 +190,12 @@ func genC19(h *H) {
 		term := []string{"eof", "other7"}[h.rng.Intn(2)]
 		h.do(class+"-"+term, "keygen", hx(data), term, patterns[h.rng.Intn(len(patterns))], strconv.Itoa(h.rng.Intn(2)))
 	}
+	// the first candidate swept around N digit by digit (a hand-rolled word compare in the range test), followed by a
+	// valid block: the key is the first block iff it is in [1, N-1]
+	for _, v := range append(chainSweep(curveN, 64, 4), chainSweep(curveN, 32, 8)...) {
+		data := append(be32(v), be32(big.NewInt(int64(1+h.rng.Intn(1000))))...)
+		h.do("first-block-swept-around-N", "keygen", hx(data), "eof", "32", "0")
+	}
 	// long runs of rejected blocks (a bounded retry loop, a counter that wraps, a buffer that fills up):
 	// the FIRST valid block after any number of rejections is the key, and exactly the bytes up to it are consumed
 	for _, run := range []int{4, 7, 8, 9, 15, 16, 17, 31, 32, 33, 63, 64, 65, 100, 127, 128, 129, 255, 256, 257, 300 + h.rng.Intn(700)} {
